@@ -13,7 +13,9 @@ CHECKS = {
          "call history alone (property layer); TLC proves mechanism=>property for every Add/Resize sequence of the small "
          "constants. Conformance both ways: TLC-simulated scripts run on the real service.ReplayCache, and sequential + "
          "concurrent traces (linearization order from a hook under the cache mutex, capacities up to 20000 in thorough) are "
-         "checked line by line by TLC against the property layer (verdict) and the mechanism layer (drift).",
+         "checked line by line by TLC against the property layer (verdict) and the mechanism layer (drift). The same scripts run a second "
+         "time with every Add presented as a real client handshake to NewShadowsocksStreamAuthenticator sharing the cache, which is "
+         "resized under it.",
          "Trusts TLC, the harness's independent pre-hash fold, and that the hook is called under the mutex. Bounded: 4-5 "
          "hashes / capacities 0..4 / <=10 operations exhaustively; larger sizes only through validated traces.",
          "DESIGN.md section 4 C07"),
@@ -26,7 +28,10 @@ CHECKS["C12"] = ("TLC exhaustive check of Listeners.tla (lock/channel/goroutine 
     "connections) over every interleaving of the scripted listen/close/accept calls and incoming connections/datagrams. The "
     "pinned code's variants are kept as negative controls (TLC must find each of the three defects). Conformance: TLC-simulated "
     "schedules are enforced on the real code through gates at every lock/channel/socket operation and the outcome (API results, "
-    "client-side fate of every connection, re-bindability, goroutines left) is judged by TLC; free-running stress rounds likewise.",
+    "client-side fate of every connection, re-bindability, goroutines left) is judged by TLC; free-running stress rounds likewise, "
+    "plus mass acquire/release rounds (44 addresses) and a churn mode (tight acquire/accept/close loops on one address, ~100 000 "
+    "rounds, events stamped from one atomic counter and written out in batches). An item sent after Close(h) returned may not "
+    "reach h (model flag CloseWaits: Close waits for the calls in flight).",
     "Bounded: 3 threads x <=4 calls, <=3 handles, 2-3 connections/datagrams, 3 keys; select nondeterminism can make a schedule "
     "diverge (counted, never an alarm). Trusts runtime.Stack wait states and loopback TCP/UDP semantics.",
     "DESIGN.md section 4 C12, 9a, 9d")
@@ -81,7 +86,9 @@ CHECKS["C11"] = ("TLC invariant WindowKeepsBoth on Reload.tla + TLC-simulated re
     "hammer TCP and UDP through ungated reloads; relays opened before a reload (idle, mid-transfer, half-closed, some across two "
     "reloads) must complete byte-exact with status OK. TLC judges each operation against the set of configurations that were live "
     "at some time during it (retained address never refused, common key authenticates, attribution from one of them, exactly one "
-    "open/close report).",
+    "open/close report). Clients that start after Stop(old) returned are judged against the new configuration alone; the key "
+    "classes in which old and new differ go first; hammer scenarios load 1 500 filler keys per service so that building a key list "
+    "takes noticeable time.",
     "7 valid configurations sharing addresses, <=4 reloads per scenario (hammer scenarios cycle them 3x). UDP 'refused' is observed "
     "through ICMP on a connected socket. Needs eth0/192.0.2.2 for the relay sink (else recorded as skipped).",
     "DESIGN.md section 4 C11")
@@ -204,7 +211,9 @@ CHECKS["C14"] = ("TLC exhaustive check of the deadline/fast-close/expiry actions
     _UD + "C14: the deadline never moves earlier except by the fast close; usable for the configured timeout after the last non-DNS and "
     "17 s after the last DNS datagram; expiry within a bound; exactly one removal; a single-DNS-query association closes right after "
     "the first DNS reply; shutdown expires everything; sockets and goroutines return to zero. In virtual time the recorded "
-    "SetReadDeadline instants are compared with the model's clock as equalities.",
+    "SetReadDeadline instants are compared with the model's clock as equalities. The promise is also checked as the server wires it: "
+    "legacy-format and services-format configurations are loaded into a real OutlineServer started with -udptimeout 150 ms and every "
+    "association opened by an authenticated probe is followed until its removal is reported (ReloadTrace kind nat-lifetime).",
     "A datagram racing with the fast close may be written to a dying association (the model allows it). Thorough adds one real 17 s run.",
     "DESIGN.md section 4 C14")
 CHECKS["C16"] = ("TLC exhaustive check of the metrics observation of UdpNat.tla + the C03/C04/C14 replays with a recording UDPMetrics and with the "
